@@ -40,6 +40,8 @@ pub struct SessionObs {
     pub failed_rpc_fired: bool,
     /// results of the cancel calls (per party), None = never returned
     pub cancels: Vec<Option<Result<(), String>>>,
+    /// coordination calls still in flight at final quiescence (a real transport would time them out)
+    pub inflight_calls: usize,
 }
 
 #[derive(Clone, Debug, Default, Serialize)]
@@ -92,7 +94,7 @@ pub async fn explore_batch(b: &Batch, baseline: usize) -> BatchObs {
     let clock = Arc::new(AtomicU64::new(1));
     let mut sess: Vec<Sess> = vec![];
     for _ in &b.sessions {
-        let ctl = Arc::new(Ctl { inner: Default::default(), clock: clock.clone() });
+        let ctl = Arc::new(Ctl { inner: Default::default(), clock: clock.clone(), inflight: Default::default() });
         let mut actors = vec![];
         let mut handles = vec![];
         for p in 0..n {
@@ -203,6 +205,7 @@ pub async fn explore_batch(b: &Batch, baseline: usize) -> BatchObs {
             }
         }
         so.leader_last = so.leader_last.max(g.last_msg_time.get(leader).copied().unwrap_or(0));
+        so.inflight_calls = s.ctl.inflight_calls();
         drop(g);
         for a in &s.actors {
             so.actor_finished.push(a.is_finished());
